@@ -8,6 +8,13 @@ use rustradio::stream::{new_nocopy_stream, new_stream};
 use std::io::{BufRead, BufReader, Write};
 use std::process::{Command, Stdio};
 
+/// samples still queued in the stream (not consumed by the sink)
+fn r_len(w: &rustradio::stream::WriteStream<u32>) -> usize {
+    // capacity of the default stream in u32 samples minus the free space
+    let cap = 4_096_000 / 4;
+    cap - w.free()
+}
+
 fn mode_of(s: &str) -> Mode {
     match s {
         "create" => Mode::Create,
@@ -208,6 +215,42 @@ pub fn run(args: &[String]) -> Vec<String> {
                 }
             }
         }
+    }
+    // a backlog much larger than any internal chunk: one work() call, default (4 MB) stream
+    for (i, n) in [70_000usize, 300_000, 1_000_000].iter().enumerate() {
+        rustradio::verif::set_stream_size(0);
+        let path = dir.path().join(format!("backlog{i}"));
+        let data: Vec<u32> = (0..*n as u32).map(|v| v.wrapping_mul(2654435761)).collect();
+        let (w, r) = new_stream::<u32>();
+        let res = quiet(|| -> Result<(), String> {
+            let mut b = FileSink::new(r, &path, Mode::Overwrite).map_err(|e| e.to_string())?;
+            {
+                let mut wb = w.write_buf().map_err(|e| e.to_string())?;
+                wb.fill_from_slice(&data);
+                wb.produce(data.len(), &[]);
+            }
+            b.work().map(|_| ()).map_err(|e| e.to_string())?;
+            let content = std::fs::read(&path).map_err(|e| e.to_string())?;
+            let left = { r_len(&w) };
+            let acknowledged = data.len() - left;
+            let full: Vec<u8> = data.iter().flat_map(|v| v.to_le_bytes()).collect();
+            if content.len() > full.len() || content[..] != full[..content.len()] {
+                return Err(format!("the file ({} bytes) is not a prefix of the serialised stream", content.len()));
+            }
+            if content.len() < 4 * acknowledged {
+                return Err(format!("{acknowledged} samples consumed but the file holds only {} bytes", content.len()));
+            }
+            Ok(())
+        });
+        rustradio::verif::set_stream_size(4096);
+        out.push(format!(
+            "!fsink backlog samples={n}\t{}",
+            match res {
+                Ok(Ok(())) => "pass".to_string(),
+                Ok(Err(e)) => format!("FAIL {e}"),
+                Err(p) => format!("FAIL panic: {p}"),
+            }
+        ));
     }
     for i in 0..kills {
         let mut r = rng.fork();
